@@ -28,6 +28,7 @@ def workdir(prefix):
 # ---------------------------------------------------------------------------------------------
 def _cfg(scn):
     return {
+        'redispatch': True,
         'buses': [{'name': b['name'], 'parallel': bool(b.get('parallel')), 'maxhist': int(b.get('maxhist') or 0), 'wal': bool(b.get('wal'))} for b in scn['buses']],
         'handlers': [dict({'id': h['id'], 'bus': h['bus'], 'pat': h['pat'], 'kind': h.get('kind', 'async'), 'to': h.get('to', '')},
                           **({'late': True} if h.get('late') else {})) for h in scn['handlers']],
@@ -169,8 +170,8 @@ def validate_obs(traces, jobs=8, batch=150, keep_dir=None):
 # ---------------------------------------------------------------------------------------------
 # conformance: TraceImpl (the recorded trace replayed through the actions of Bubus.tla)
 # ---------------------------------------------------------------------------------------------
-_H_OPS = {'d', 'y', 's', 'a', 'rb', 'raise', 'ret', 'g', 'logop', 'stop'}
-_D_OPS = {'d', 'a', 'y', 's', 'idle', 'g', 'acc', 'stop', 'crl', 'expect', 'on'}
+_H_OPS = {'d', 'rd', 'y', 's', 'a', 'rb', 'raise', 'ret', 'g', 'logop', 'stop'}
+_D_OPS = {'d', 'rd', 'a', 'y', 's', 'idle', 'g', 'acc', 'stop', 'crl', 'expect', 'on'}
 
 
 def impl_eligible(scn):
@@ -197,12 +198,18 @@ def impl_eligible(scn):
 def impl_trace_ok(tr):
     """trace-level exclusions of corners the model deliberately leaves out (documented in DESIGN.md 12.3)"""
     stopped = set()
+    rejected_roots = set()
     for l in tr['lines']:
         a = l['a']
         if a in ('StopB', 'CancelRL'):
             stopped.add(l['b'])
         elif a in ('Disp', 'IdleB') and l['b'] in stopped:
             return False      # a bus used again after stop()/cancel: a new run loop next to the dying one (findings G2/G3 territory)
+        if a == 'Disp' and not l.get('fw') and not l.get('act'):
+            if l['e'] in rejected_roots:
+                return False  # a root whose first dispatch was rejected is dispatched again: the model's driver has forgotten it
+            if l['out'] != 'ok':
+                rejected_roots.add(l['e'])
     return True
 
 
